@@ -517,6 +517,16 @@ impl Space for Names {
                             expected: "rejected (error, unconsumed input, or a different name reported)".into(),
                             observed: "accepted with exactly this name".into(),
                         });
+                    } else if !acc && !may && *ctx != "xpath" && !s.is_empty() && s.chars().all(chars::is_name_char) && guard(|| obs::parse_info(&document_for(ctx, &s)).0 == obs::Parsed::Complete).unwrap_or(false) {
+                        // every character is a name character, so nothing can end the name early: a document that is
+                        // accepted has taken part of the string for the name and swallowed the rest
+                        sink.finding(Finding {
+                            sig: format!("accepts-document-with-non-name/{}/{}", ctx, why_not(is_qname_ctx(ctx), &s)),
+                            what: format!("{} position: the document is accepted although the string is not a {}, under another name", ctx, if is_qname_ctx(ctx) { "QName" } else { "Name" }),
+                            case: format!("name {} in {}", obs::q(&s), document_for(ctx, &s)),
+                            expected: "rejected".into(),
+                            observed: "accepted completely, reporting a different name".into(),
+                        });
                     } else if !acc && must {
                         sink.finding(Finding {
                             sig: format!("rejects-name/{}/{}", ctx, shape(&s)),
